@@ -356,12 +356,17 @@ func runC13Streams(run *Run, seed int64, cfgI int, id string, full bool) (out []
 		return append(b, mpEncode(&WPushPullHeader{Nodes: nodes, UserStateLen: user, Join: false})...)
 	}
 	plainCaps := map[string][]byte{
-		"nodes>2^20":        mkpp(1<<20+1, 0),
-		"nodes<0":           mkpp(-5, 0),
-		"userstate>20MiB":   mkpp(0, 20<<20+1),
-		"userstate<0":       mkpp(0, -1),
-		"usermsg>20MiB":     append([]byte{TUser}, mpEncode(&WUserMsgHeader{UserMsgLen: 20<<20 + 1})...),
-		"usermsg<0":         append([]byte{TUser}, mpEncode(&WUserMsgHeader{UserMsgLen: -7})...),
+		"nodes>2^20":      mkpp(1<<20+1, 0),
+		"nodes<0":         mkpp(-5, 0),
+		"userstate>20MiB": mkpp(0, 20<<20+1),
+		"userstate<0":     mkpp(0, -1),
+		"usermsg>20MiB":   append([]byte{TUser}, mpEncode(&WUserMsgHeader{UserMsgLen: 20<<20 + 1})...),
+		"usermsg<0":       append([]byte{TUser}, mpEncode(&WUserMsgHeader{UserMsgLen: -7})...),
+		// values of 2^32 and beyond whose low 32 bits look harmless
+		"nodes=2^32+3":      mkpp(1<<32+3, 0),
+		"nodes=-2^32":       mkpp(-(1 << 32), 0),
+		"userstate=2^32+9":  mkpp(0, 1<<32+9),
+		"usermsg=2^32+9":    append([]byte{TUser}, mpEncode(&WUserMsgHeader{UserMsgLen: 1<<32 + 9})...),
 		"unknown-type":      {77, 1, 2, 3},
 		"compress-bad-algo": Enc(TCompress, &WCompress{Algo: 5, Buf: []byte{1}}),
 	}
